@@ -51,6 +51,7 @@ type clusterRunner struct {
 	log    []string
 	start  time.Time
 	layouts map[string]bool
+	hasDups bool // some document is present on more than one shard
 }
 
 func (r *clusterRunner) logf(f string, a ...any) {
@@ -202,6 +203,19 @@ func (r *clusterRunner) par(clients [][]Op) {
 					for _, d := range op.Docs {
 						r.corpus.Add(d)
 					}
+					if op.DupShard > 0 {
+						sh := (op.DupShard - 1) % r.c.HotShards
+						for rep := 0; rep < r.c.HotReplicas; rep++ {
+							st := r.stores[sh*r.c.HotReplicas+rep]
+							if ack, status, err := st.Bulk(opTimeout, op.Docs); !ack {
+								r.violate("api_error", "direct bulk to %s failed without any fault: %s %v", st.Node.Name, status, err)
+								return
+							}
+						}
+						r.hasDups = true
+						r.s.Probe("bulk_also_on_second_shard")
+						r.logf("c%d bulk#%d also delivered to shard %d", ci, op.Bulk, sh)
+					}
 				}
 			}
 		}))
@@ -293,11 +307,19 @@ func (r *clusterRunner) validate(label string) {
 				return
 			}
 		}
-		if s.WithTotal && qpr.Total != uint64(len(want)) {
+		// Documents present on several shards are listed once (checked above). The merge corrects total
+		// and histogram for the repetitions it removes from the listing, so with such documents these
+		// counts are demanded only when the listing covers the whole result; aggregations are not
+		// corrected for copies at all and are not compared then (DESIGN.md 10).
+		countsDefined := !r.hasDups || size >= len(want)+1
+		if !countsDefined {
+			r.s.Probe("counts_skipped_partial_page_with_copies")
+		}
+		if countsDefined && s.WithTotal && qpr.Total != uint64(len(want)) {
 			r.violate("total", "%s: proxy search %q reports total %d, model has %d", label, s.Q.SeqQL(), qpr.Total, len(want))
 			return
 		}
-		if s.Interval > 0 {
+		if countsDefined && s.Interval > 0 {
 			wh := model.Hist(want, s.Interval)
 			for k, v := range wh {
 				if qpr.Histogram[seq.MID(k)] != v {
@@ -312,7 +334,7 @@ func (r *clusterRunner) validate(label string) {
 				}
 			}
 		}
-		if len(s.Aggs) > 0 {
+		if len(s.Aggs) > 0 && !r.hasDups {
 			if len(qpr.Aggs) != len(s.Aggs) {
 				r.violate("aggregation", "%s: %d aggregations requested, %d returned", label, len(s.Aggs), len(qpr.Aggs))
 				return
@@ -436,6 +458,7 @@ func GenCluster(property string, seed uint64, tier Tier) *ClusterCase {
 	}
 	c.HotShards, c.HotReplicas = g.r.Range(1, 3), g.r.Range(1, 3)
 	c.MaxLatencyMs = []int{0, 5, 50, 500}[g.r.Intn(4)]
+	copies := property == "C05" && g.r.Bool(0.3) // documents present on several shards
 	rounds := g.r.Range(1, 3)
 	for round := 0; round < rounds; round++ {
 		nclients := g.r.Range(1, 3)
@@ -444,6 +467,9 @@ func GenCluster(property string, seed uint64, tier Tier) *ClusterCase {
 			var ops []Op
 			for i := 0; i < g.r.Range(2, 7); i++ {
 				ops = append(ops, g.bulk(g.bulkSize()))
+				if copies && g.r.Bool(0.4) {
+					ops[len(ops)-1].DupShard = g.r.Range(1, c.HotShards)
+				}
 				if g.r.Bool(0.3) {
 					ops = append(ops, Op{Kind: "sleep", Ms: g.r.Range(1, 400)})
 				}
